@@ -1,5 +1,15 @@
 """Which units / harnesses decide which property, and what each leaves uncovered."""
+PANIC_KINDS = ("panic-precondition", "overflow", "index", "debug_assert", "assert", "unreachable", "div-by-zero", "shift-overflow", "termination", "panic")
+
 PROPS = {
+    "C06": {
+        "claim": "Proof of panic-freedom, for every argument satisfying the stated grammar precondition and with no length or depth bound, of the in-repo conversion code that text entry points run after the parser: Verus discharges every panic obligation (unwrap/expect on None/Err, slice and array indexing, integer overflow and underflow, debug_assert!, unreachable!) of U256::from_str, the power-of-two newtypes, UIntType::{two_n,bit_width,from_bit_width,byte_width}, UIntValue::{u1,u2,u4,parse_decimal} and Value::parse_hexadecimal.",
+        "note": "Only panic-type obligations are in scope of this check (postconditions belong to C11). Precondition = A-pest: the digit string handed over by the parser matches its grammar rule after `_` removal (possibly empty). NOT covered: the pest-generated parser itself (stack depth, unwrap on pair shapes in parse.rs), ast::analyze, serde JSON, error rendering, UIntValue::parse_binary (iterator adapters; Kani harness planned). Machine integers are checked for overflow, not treated as mathematical.",
+        "units": ["num", "literal"],
+        "kinds": PANIC_KINDS,
+        "level": "proof",
+        "not_covered": ["pest-generated parser", "ast::analyze", "serde.rs", "RichError rendering", "UIntValue::parse_binary"],
+    },
     "C07": {
         "claim": "Proof for every length n / every bound 2^k of the split rule that fixes the layout of tuples, arrays and lists: the real BTreeSlice::as_node is proved to split a slice of n >= 2 elements at n - npo2(n)/2, and lemma_split proves that the right part then is the largest power of two strictly below n; Partition::{from_slice, as_node, is_complete} are proved to produce (block of bound/2 elements or empty block, partition of the rest with bound/2); the power-of-two newtypes (new, mul2, checked_div2, log2, their debug_assert!/unreachable! sites) are proved to keep their invariant. These are the functions every layout (types, values, patterns, list fold) is computed with.",
         "note": "Assumed: std specs (is_power_of_two, next_power_of_two, trailing_zeros), slice extensionality, derive semantics; slices have at most isize::MAX elements (next_power_of_two would overflow above 2^63). Not yet under contract: the folds over these trees (BTreeSlice::fold, Partition::fold, Unfolder, Combiner), StructuralType/StructuralValue constructors, the cast acceptance test in ast.rs and Value::reconstruct; see level_note in evidence.",
@@ -37,7 +47,7 @@ PROPS = {
     "C11": {
         "claim": "Proof for every decimal string of any length: the real U256::from_str is proved to return Ok exactly for non-empty all-digit strings whose mathematical value is below 2^256 and to return that value (big-endian bytes), including the 78-digit early exit and the carry loop; no sampling bound.",
         "note": "Assumed: vstd model of str::chars / Chars::next, specs of trim_start_matches('0'), Chars::count, char::to_digit(10). Rule R3 rewrites the iter_mut().rev() loop into an index loop (validated in the thorough tier). Not covered yet: the other literal parsers (value.rs), ast passing the right type, the pest literal rules.",
-        "units": ["num"],
+        "units": ["num", "literal"],
         "scope": [r"^num/FromStr for U256", r"^num/lemma_", r"^literal/"],
         "level": "proof",
         "not_covered": ["ast::SingleExpression::analyze passing the right type", "pest literal rules (A-pest)"],
